@@ -226,7 +226,8 @@ def linear_kalman(c, rec):
         ident = ukf.pred_p - ks @ ss @ ks.T
         if float(np.abs(ukf.est_p - ident).max()) > 1e-12 * float(np.abs(ukf.pred_p).max()) * max(1.0, cond):
             raise Violation("posterior_identity", f"step {k}: est_p != pred_p - K S K^T")
-        if float(np.abs(ukf.est_p - ukf.est_p.T).max()) > 1e-9 * g * float(np.abs(ukf.pred_p).max()):
+        # (P - K S K^T with K from inv(S): the two triangles agree to ~eps * cond(S) relative to the prior)
+        if float(np.abs(ukf.est_p - ukf.est_p.T).max()) > max(1e-9, 50 * np.finfo(float).eps * cond) * g * float(np.abs(ukf.pred_p).max()):
             raise Violation("posterior_symmetry", f"step {k}: posterior covariance is not symmetric")
         floor = -10 * tol * float(np.abs(pb).max())
         sym = (ukf.est_p + ukf.est_p.T) / 2
